@@ -116,14 +116,12 @@ def _compute_headers(cols, col_indices):
 	sanitized_names = []
 	dtypes = []
 	seen = set()
+	shown = set(col_indices)
 
-	for idx in col_indices:
-		col = cols[idx]
-
-		# Display name
-		disp = col._name or ""
-		display_names.append(disp)
-
+	# Walk ALL columns so that repeated names are disambiguated exactly as the
+	# table's accessor map does (a hidden column may own the plain name);
+	# only the displayed columns are emitted.
+	for idx, col in enumerate(cols):
 		# Sanitized dot name
 		if col._name:
 			san = _sanitize_user_name(col._name)
@@ -136,6 +134,14 @@ def _compute_headers(cols, col_indices):
 				seen.add(san)
 		else:
 			san = f"col{idx}_"
+
+		if idx not in shown:
+			continue
+
+		# Display name
+		disp = col._name or ""
+		display_names.append(disp)
+
 		sanitized_names.append(san)
 
 		# Dtype (with nullable indicator)
